@@ -12,6 +12,7 @@ import (
 	"bytes"
 	"crypto/x509"
 	"encoding/asn1"
+	"crypto/ecdsa"
 	"crypto/elliptic"
 	crand "crypto/rand"
 	"encoding/pem"
@@ -108,6 +109,12 @@ func anchoredIn(q *pb.QuoteV4, listed []*x509.Certificate, at time.Time) anchori
 		certs = append(certs, c)
 	}
 	leaf, inter, root := certs[0], certs[1], certs[2]
+	for i, c := range certs {
+		pk, isEC := c.PublicKey.(*ecdsa.PublicKey)
+		if c.Version != 3 || c.SignatureAlgorithm != x509.ECDSAWithSHA256 || !isEC || pk.Curve != elliptic.P256() {
+			return anchoring{false, fmt.Sprintf("certificate %d of the chain is not of the PCK hierarchy's profile (X.509 v3, ecdsa-with-SHA256, P-256 key): version %d, %v", i, c.Version, c.SignatureAlgorithm)}
+		}
+	}
 	if leaf.Subject.CommonName != cnPck {
 		return anchoring{false, fmt.Sprintf("leaf CN is %q", leaf.Subject.CommonName)}
 	}
@@ -320,6 +327,17 @@ func c02Kinds() []c02Kind {
 		cloneCert(s, "root", "rootX", func(c *world.CertSpec) { c.SignKey = 6 })
 		s.Chain = chainOf("leaf", "inter", "rootX")
 	})
+	// ---- certificate profile: Intel's PCK hierarchy is X.509 v3, ecdsa-with-SHA256 over P-256 keys, at every level — a chain
+	// that is otherwise perfectly anchored but deviates in ONE certificate (the leaf included) is not such a chain
+	for _, role := range []string{"leaf", "inter", "root"} {
+		for _, alg := range []struct {
+			name string
+			a    x509.SignatureAlgorithm
+		}{{"ecdsa-sha384", x509.ECDSAWithSHA384}, {"ecdsa-sha512", x509.ECDSAWithSHA512}, {"ecdsa-sha1", x509.ECDSAWithSHA1}} {
+			role, alg := role, alg
+			add("profile:"+role+"-signed-with-"+alg.name, false, false, func(rng *rand.Rand, s *world.Spec) { s.Cert(role).SigAlg = alg.a })
+		}
+	}
 	add("role:ca-flag-on-pck-leaf", true, false, func(rng *rand.Rand, s *world.Spec) { s.Cert("leaf").IsCA = true })
 	// ---- chain shapes
 	add("shape:chain-nil", false, false, func(rng *rand.Rand, s *world.Spec) { s.ChainNil = true })
@@ -602,6 +620,7 @@ func c02RootOfTrust(r *hx.Run, notes *vNotes) {
 			w := world.Build(s)
 			var rot *ccpb.RootOfTrust
 			var listed []string
+			isFileListed := map[string]bool{}
 			wantErr := false
 			if !c.nilCfg {
 				rot = &ccpb.RootOfTrust{CheckCrl: rng.IntN(2) == 0, GetCollateral: rng.IntN(2) == 0}
@@ -623,6 +642,7 @@ func c02RootOfTrust(r *hx.Run, notes *vNotes) {
 						for _, it := range items {
 							if isCertItem(it) {
 								listed = append(listed, it)
+								isFileListed[it] = true
 								n++
 							}
 						}
@@ -648,10 +668,23 @@ func c02RootOfTrust(r *hx.Run, notes *vNotes) {
 			}
 			var opts *verify.Options
 			var err error
+			var sharedIn *ccpb.RootOfTrust
 			res, _ := hx.Guard(func() string {
 				var in *ccpb.RootOfTrust
 				if rot != nil {
 					in = proto.Clone(rot).(*ccpb.RootOfTrust)
+					// the configuration message is the caller's, spare capacity of its lists included: the slots behind the
+					// listed bundles hold the bundle of ANOTHER configuration (root C) that shares the backing array
+					spare := string(rotBlob(w, []string{"rootC"}))
+					in.Cabundles = append(make([]string, 0, len(in.Cabundles)+3), in.Cabundles...)
+					in.CabundlePaths = append(make([]string, 0, len(in.CabundlePaths)+3), in.CabundlePaths...)
+					for k := len(in.Cabundles); k < cap(in.Cabundles); k++ {
+						in.Cabundles[:cap(in.Cabundles)][k] = spare
+					}
+					for k := len(in.CabundlePaths); k < cap(in.CabundlePaths); k++ {
+						in.CabundlePaths[:cap(in.CabundlePaths)][k] = "/nonexistent/spare"
+					}
+					sharedIn = in
 				}
 				opts, err = verify.RootOfTrustToOptions(in)
 				if err != nil {
@@ -660,6 +693,36 @@ func c02RootOfTrust(r *hx.Run, notes *vNotes) {
 				return "ok"
 			})
 			obs, fail := res, ""
+			if in := sharedIn; in != nil && res != "panic" {
+				spare := string(rotBlob(w, []string{"rootC"}))
+				for k := len(in.Cabundles); k < cap(in.Cabundles) && fail == ""; k++ {
+					if in.Cabundles[:cap(in.Cabundles)][k] != spare {
+						fail = fmt.Sprintf("verify.RootOfTrustToOptions wrote into the caller's configuration: slot %d behind its %d inline bundle(s) (spare capacity, shared with another configuration that lists root C there) now holds other content", k, len(in.Cabundles))
+						// what the other configuration now trusts
+						o2, err2 := verify.RootOfTrustToOptions(&ccpb.RootOfTrust{Cabundles: in.Cabundles[:k+1]})
+						if err2 == nil && o2 != nil && o2.TrustedRoots != nil {
+							exp := x509.NewCertPool()
+							for _, role := range listed {
+								if !isFileListed[role] {
+									exp.AddCert(w.Certs[role].Cert)
+								}
+							}
+							exp.AddCert(w.Certs["rootC"].Cert)
+							if !o2.TrustedRoots.Equal(exp) {
+								fail += "; the configuration sharing that array (the same inline bundles + root C) no longer trusts exactly what it lists"
+							}
+						}
+					}
+				}
+				for k := len(in.CabundlePaths); k < cap(in.CabundlePaths) && fail == ""; k++ {
+					if in.CabundlePaths[:cap(in.CabundlePaths)][k] != "/nonexistent/spare" {
+						fail = "verify.RootOfTrustToOptions wrote into the spare capacity of the caller's cabundle_paths"
+					}
+				}
+				if fail == "" && rot != nil && !proto.Equal(in, rot) {
+					fail = "verify.RootOfTrustToOptions changed the configuration message it was given"
+				}
+			}
 			tags := []string{"rot", "rot:" + c.name, "rot-verdict:" + res}
 			switch {
 			case res == "panic":
